@@ -310,9 +310,18 @@ func UpdateCheckpoint(outCli client.Redis, localCheckpoint string, ids []string)
 			Version: config.Version,
 		}
 		if len(cpName) > 0 { // restore old checkpoint
-			cpKv, _, err = GetCheckpoint(outCli, cpName, ids)
+			var cpDb int
+			cpKv, cpDb, err = GetCheckpoint(outCli, cpName, ids)
 			if err != nil {
 				return err
+			}
+			// GetCheckpoint leaves the connection in the last database it scanned,
+			// the checkpoint must stay in the database it was found in (it is the resume database)
+			if cpDb >= 0 {
+				err = redis.SelectDB(outCli, uint32(cpDb))
+				if err != nil {
+					return err
+				}
 			}
 		}
 
